@@ -231,7 +231,32 @@ func (s *Sim) stateMalformed() []malformedCase {
 			break
 		}
 	}
-	for id, n := range s.shim.Nodes {
+	// an update of something the core knows, with a negative quantity: refused, nothing changes
+	for _, k := range s.shim.sortedAllocKeys() {
+		m := s.shim.Allocs[k]
+		if a := s.shim.Apps[m.App]; a == nil || a.Status != "accepted" || m.Foreign {
+			continue
+		}
+		if m.Status == stBound || m.Status == stPending {
+			key, app, node, tg, ph := m.Key, m.App, m.Node, m.TaskGroup, m.Placeholder
+			pending := m.Status == stPending
+			name := "update-bound-negative"
+			if pending {
+				name, node = "update-pending-negative", ""
+			}
+			out = append(out, malformedCase{name, "alloc", func(s *Sim, id string) {
+				if pending {
+					s.shim.mu.Lock()
+					s.shim.RejectNoEffect[key] = true
+					s.shim.mu.Unlock()
+				}
+				s.sendAlloc(&si.Allocation{AllocationKey: key, ApplicationID: app, NodeID: node, TaskGroupName: tg, Placeholder: ph, ResourcePerAlloc: resSI(Res{"vcore": 2, "memory": -3})})
+			}})
+			break
+		}
+	}
+	for _, id := range sortedKeys(s.shim.Nodes) {
+		n := s.shim.Nodes[id]
 		if n.Status == "removed" {
 			nid := id
 			out = append(out, malformedCase{"update-removed-node", "", func(s *Sim, id string) {
@@ -243,7 +268,8 @@ func (s *Sim) stateMalformed() []malformedCase {
 			break
 		}
 	}
-	for id, a := range s.shim.Apps {
+	for _, id := range sortedKeys(s.shim.Apps) {
+		a := s.shim.Apps[id]
 		if a.Status == "removed" || a.Status == "rejected" {
 			aid := id
 			out = append(out, malformedCase{"ask-for-gone-application", "alloc", func(s *Sim, id string) {
